@@ -196,6 +196,10 @@ func c13Stream(c *cur) string {
 		stream += seps[i] + d
 	}
 	stream += seps[len(docs)]
+	if kind == "json" && len(c.toks)%2 == 0 {
+		// the number mode is an option of every JSON reader form alike
+		mxj.JsonUseNumber = true
+	}
 	// expected Maps: each document decoded on its own
 	var want []string
 	for _, d := range docs {
@@ -544,7 +548,7 @@ func (r *Rng) jsonStreamDoc() string {
 			case depth < 2 && r.P(30):
 				obj(depth + 1)
 			case r.P(20):
-				sb.WriteString(r.Pick([]string{"1", "true", "null", "[1, 2]", "[{\"z\":\"}\"}]"}))
+				sb.WriteString(r.Pick([]string{"1", "true", "null", "[1, 2]", "[{\"z\":\"}\"}]", "9007199254740993", "2.50", "-0", "1e3"}))
 			default:
 				str()
 			}
